@@ -498,16 +498,16 @@ PROPS["C02"] = {
     "technique": "compiler sanitizers (ASan, TSan), valgrind memcheck and Miri over generated hostile + boundary-shape workloads",
     "stages": [
         {"worker": "c02", "variant": "asan", "quick": {"cases": 12000, "floor": 300, "time_budget": 200, "extra": {"ignore-panics": 1}},
-         "thorough": {"cases": 600000, "floor": 10000, "time_budget": 900, "extra": {"ignore-panics": 1}}},
+         "thorough": {"cases": 600000, "floor": 10000, "time_budget": 600, "extra": {"ignore-panics": 1}}},
         {"worker": "c12", "variant": "asan", "quick": {"cases": 1500, "floor": 40, "time_budget": 120, "extra": {"ignore-panics": 1}},
-         "thorough": {"cases": 40000, "floor": 1000, "time_budget": 900, "extra": {"ignore-panics": 1}}},
+         "thorough": {"cases": 40000, "floor": 1000, "time_budget": 400, "extra": {"ignore-panics": 1}}},
         {"worker": "c03", "variant": "asan", "quick": {"cases": 3000, "floor": 80, "time_budget": 120, "extra": {"ignore-panics": 1, "preview-mode": 1}},
-         "thorough": {"cases": 80000, "floor": 2000, "time_budget": 900, "extra": {"ignore-panics": 1, "preview-mode": 1}}},
-        {"worker": "c12", "variant": "vg", "thorough": {"cases": 1200, "floor": 30, "time_budget": 600, "shards": 16, "hang_budget": 900, "extra": {"ignore-panics": 1}}},
-        {"worker": "c03", "variant": "miri", "thorough": {"cases": 160, "floor": 4, "time_budget": 600, "shards": 16, "hang_budget": 1200, "extra": {"ignore-panics": 1, "tiny": 1, "preview-mode": 1}}},
-        {"worker": "c12", "variant": "miri+sse4.1", "thorough": {"cases": 96, "floor": 2, "time_budget": 600, "shards": 16, "hang_budget": 1200, "extra": {"ignore-panics": 1, "tiny": 1}}},
-        {"worker": "c12", "variant": "miri+avx2", "thorough": {"cases": 96, "floor": 2, "time_budget": 600, "shards": 16, "hang_budget": 1200, "extra": {"ignore-panics": 1, "tiny": 1}}},
-        {"worker": "c07", "variant": "tsan", "thorough": {"cases": 600, "floor": 10, "time_budget": 600, "hang_budget": 600, "extra": {"ignore-panics": 1}}},
+         "thorough": {"cases": 80000, "floor": 2000, "time_budget": 400, "extra": {"ignore-panics": 1, "preview-mode": 1}}},
+        {"worker": "c12", "variant": "vg", "thorough": {"cases": 1200, "floor": 30, "time_budget": 400, "shards": 16, "hang_budget": 900, "extra": {"ignore-panics": 1}}},
+        {"worker": "c03", "variant": "miri", "thorough": {"cases": 160, "floor": 4, "time_budget": 300, "shards": 16, "hang_budget": 400, "extra": {"ignore-panics": 1, "tiny": 1, "preview-mode": 1}}},
+        {"worker": "c12", "variant": "miri+sse4.1", "thorough": {"cases": 96, "floor": 2, "time_budget": 300, "shards": 16, "hang_budget": 400, "extra": {"ignore-panics": 1, "tiny": 1}}},
+        {"worker": "c12", "variant": "miri+avx2", "thorough": {"cases": 96, "floor": 2, "time_budget": 300, "shards": 16, "hang_budget": 400, "extra": {"ignore-panics": 1, "tiny": 1}}},
+        {"worker": "c07", "variant": "tsan", "thorough": {"cases": 600, "floor": 10, "time_budget": 400, "hang_budget": 600, "extra": {"ignore-panics": 1}}},
     ],
 }
 
